@@ -53,9 +53,10 @@ ASSUMPTIONS = [
     'g\'/(ref_src-ref0_src)',
     'comparison tolerance 1e-12 relative to the largest magnitude in the vector (scaling factors '
     'such as 1.8 are not dyadic); the round trip norm->phys must return the data within 1e-13',
-    'complex step: imaginary parts are compared only while complex-step mode is on and mode is '
-    'never switched on again after it was switched off (what happens to imaginary parts while the '
-    'mode is off is not stated); dot/get_norm are not compared under complex step (docstring and '
+    'complex step: imaginary parts are compared only while complex-step mode is on; the mode is '
+    'switched on again after it was switched off only if nothing but set_val (documented to assign '
+    'into the complex storage) ran in between (what other operations do to imaginary parts while '
+    'the mode is off is not stated); dot/get_norm are not compared under complex step (docstring and '
     'code disagree on "real parts")',
     'fresh state per history = root data arrays reset to a generic pattern on a Problem built once '
     'per worker process (a Vector has no other state than its data, complex-step flag and scope '
@@ -313,6 +314,11 @@ class Mirror(object):
                      for i, n in enumerate(H.sizes)]
         self.cs_on = False
         self.cs_was_on = False
+        # True once an operation other than set_val (documented to assign into the complex
+        # storage, resetting the imaginary part) ran while the mode was off after having been on:
+        # what such operations do to the hidden imaginary parts is not stated, so the mode is
+        # then never switched on again
+        self.off_dirty = False
         self.ctx = []             # open system-level contexts
         self.scope = None         # (scope_in, scope_out) while inside a matvec context
 
@@ -328,8 +334,10 @@ class Mirror(object):
     def key(self):
         parts = []
         for i, d in enumerate(self.data):
-            parts.append((d if self.cs_on or not np.iscomplexobj(d) else d.real).tobytes())
-        return (tuple(parts), self.cs_on, self.cs_was_on, tuple(c[0] for c in self.ctx),
+            full = self.cs_on or not np.iscomplexobj(d) or not self.off_dirty
+            parts.append((d if full else d.real).tobytes())
+        return (tuple(parts), self.cs_on, self.cs_was_on, self.off_dirty,
+                tuple(c[0] for c in self.ctx),
                 None if self.scope is None else (tuple(sorted(self.scope[0])),
                                                  tuple(sorted(self.scope[1]))))
 
@@ -396,6 +404,8 @@ def apply_op(H, M, op, pal):
     vio = []
     if not M.cs_on and any(isinstance(x, list) and x and x[0] in ('z', 'zpat') for x in op):
         raise Skip()      # complex values are only meaningful under complex step
+    if M.cs_was_on and not M.cs_on and k not in ('set_val', 'cs'):
+        M.off_dirty = True
     before = [d.copy() for d in M.data]
 
     def vecs(ref):
@@ -646,7 +656,7 @@ def apply_op(H, M, op, pal):
             M.scope = None
     elif k == 'cs':
         on = bool(op[1])
-        if not H.cs or on == M.cs_on or (on and M.cs_was_on):
+        if not H.cs or on == M.cs_on or (on and M.cs_was_on and M.off_dirty):
             raise Skip()
         H.model._set_complex_step_mode(on)
         M.cs_on = on
@@ -903,6 +913,12 @@ def _alphabet(focus, alpha, H):
                ['alias_write', T, 'getitem', ['zpat', 2], n22],
                ['set_val', [T, 'g2'], ['z', 4], None],
                ['to_norm', T, 'fwd'], ['to_phys', T, 'fwd']]
+    elif alpha == 'csoffon':
+        # complex values written under complex step, the mode switched off, plain set_val calls,
+        # the mode switched on again: entries set while it was off must have no imaginary part
+        ops = [['cs', 1], ['cs', 0],
+               ['set_val', T, ['z', 0], None], ['set_val', T, ['c', 1], ['s', 1, 4, None]],
+               ['set_val', T, ['pat', 2], None], ['set_val', [T, 'g2'], ['c', 3], None]]
     elif alpha == 'matvec':
         ops = [['ctx_enter', 'matvec_fwd'], ['ctx_enter', 'matvec_rev'], ['ctx_exit', 'normal'],
                ['ctx_exit', 'exc'],
@@ -923,16 +939,16 @@ def _alphabet(focus, alpha, H):
 
 
 _DEPTH = {'quick': {'arith': 3, 'named': 3, 'subvec': 3, 'scaling': 4, 'cs': 3, 'matvec': 4,
-                    'cross': 3},
+                    'cross': 3, 'csoffon': 5},
           'thorough': {'arith': 4, 'named': 4, 'subvec': 4, 'scaling': 5, 'cs': 4, 'matvec': 5,
-                       'cross': 4}}
+                       'cross': 4, 'csoffon': 6}}
 
 
 def _n_ops(focus, alpha):
     # number of operations in an alphabet without building a model: the alphabets have a fixed
     # size per (focus, alpha)
     base = {'arith': 28, 'named': 16, 'subvec': 21, 'scaling': 14, 'cs': 15, 'matvec': 9,
-            'cross': 26}[alpha]
+            'cross': 26, 'csoffon': 6}[alpha]
     if alpha == 'scaling' and _VECS[focus] == ('input', 'linear'):
         base += 4
     return base
@@ -941,8 +957,8 @@ def _n_ops(focus, alpha):
 def cases(tier, seed):
     out = [{'kind': 'static', 'cs': 0}, {'kind': 'static', 'cs': 1}]
     pal = seed % 4
-    for alpha in ('arith', 'named', 'subvec', 'scaling', 'cs', 'matvec', 'cross'):
-        if alpha == 'cs':
+    for alpha in ('arith', 'named', 'subvec', 'scaling', 'cs', 'matvec', 'cross', 'csoffon'):
+        if alpha in ('cs', 'csoffon'):
             foci = [0, 1, 2]
         elif alpha == 'matvec':
             foci = [3, 4]
@@ -953,7 +969,8 @@ def cases(tier, seed):
         for T in foci:
             for first in range(_n_ops(T, alpha)):
                 out.append({'kind': 'bfs', 'focus': T, 'alpha': alpha, 'first': first,
-                            'depth': _DEPTH[tier][alpha], 'cs': int(alpha == 'cs'), 'pal': pal})
+                            'depth': _DEPTH[tier][alpha], 'cs': int(alpha in ('cs', 'csoffon')),
+                            'pal': pal})
     return out
 
 
@@ -1058,7 +1075,7 @@ def _static(case):
     # the search, to back the reset-instead-of-rebuild shortcut used there
     fresh = 0
     for alpha in ('arith', 'named', 'subvec', 'scaling', 'cs', 'matvec', 'cross'):
-        if alpha == 'cs' and not case['cs']:
+        if alpha in ('cs', 'csoffon') and not case['cs']:
             continue
         foci = {'cs': [1], 'matvec': [3, 4], 'cross': [1]}.get(alpha, [0, 4])
         for focus in foci:
